@@ -651,6 +651,30 @@ func (env *SpecEnv) call(x ECall) SpecVal {
 		}
 		_, unbox := g.boxFns(tsort)
 		return SpecVal{"(" + unbox + " (if.ref " + v.T + "))", tsort, gt}
+	case "ext":
+		// ext("name", args...): application of a trusted pure external function
+		ns, ok := x.Args[0].(EStr)
+		if !ok {
+			env.fail("ext(\"name\", args...)")
+		}
+		var sorts, terms []string
+		for _, a := range x.Args[1:] {
+			v := env.tr(a)
+			sorts = append(sorts, v.Sort)
+			terms = append(terms, v.T)
+		}
+		fn := "ext." + smtSym(ns.V)
+		if !g.so.done[fn] {
+			g.so.done[fn] = true
+			g.specDecls = append(g.specDecls, fmt.Sprintf("(declare-fun %s (%s) Int)", fn, strings.Join(sorts, " ")))
+		}
+		return SpecVal{"(" + fn + " " + strings.Join(terms, " ") + ")", "Int", nil}
+	case "xor32":
+		a, b := env.tr(x.Args[0]), env.tr(x.Args[1])
+		return SpecVal{"(xor32 " + a.T + " " + b.T + ")", "Int", nil}
+	case "wrapu32":
+		v := env.tr(x.Args[0])
+		return SpecVal{"(wrap_u32 " + v.T + ")", "Int", nil}
 	case "goquo", "gorem":
 		a, b := env.tr(x.Args[0]), env.tr(x.Args[1])
 		if !g.so.done["symdiv"] {
